@@ -138,11 +138,11 @@ pub fn units(tier: Tier, seed: u64) -> Vec<Unit> {
         }
         // combinators over pairs (different warm-ups), optionally under an outer wrapper
         let simple: Vec<VK> = inner.iter().filter(|v| !matches!(v, VK::NET(_) | VK::EFT(..) | VK::HLNormalizer(_) | VK::LaguerreRSI(_))).cloned().collect();
-        let ncomb = if q { 40 } else if n == 2 { 4 * simple.len() * simple.len() } else { 200 };
+        let ncomb = if q { 40 } else if n == 2 { 800 } else { 200 };
         let mut seen = std::collections::HashSet::new();
         let mut idx = 0usize;
         for i in 0..ncomb {
-            let (op, a, c) = if !q && n == 2 { let j = idx; idx += 1; (j % 4, simple[(j / 4) % simple.len()].clone(), simple[(j / 4 / simple.len()) % simple.len()].clone()) } else { (i % 4, simple[rng.below(simple.len())].clone(), simple[rng.below(simple.len())].clone()) };
+            let (op, a, c) = if false { let j = idx; idx += 1; (j % 4, simple[(j / 4) % simple.len()].clone(), simple[(j / 4 / simple.len()) % simple.len()].clone()) } else { (i % 4, simple[rng.below(simple.len())].clone(), simple[rng.below(simple.len())].clone()) };
             let outer_w = if i % 5 == 4 { Some(outer[rng.below(outer.len())].clone()) } else { None };
             if let Some(o) = &outer_w { if matches!(o, VK::NET(_) | VK::EFT(..) | VK::HLNormalizer(_) | VK::LaguerreRSI(_)) || o.needs_positive() { continue; } }
             if !seen.insert((op, a.name(), c.name(), outer_w.as_ref().map(|o| o.name()))) { continue; }
@@ -166,14 +166,14 @@ pub fn units(tier: Tier, seed: u64) -> Vec<Unit> {
     }
     let first_static = u.len();
     let _ = first_static;
-    for x in u.iter_mut() { x.path_cap = 4000; x.budget_s = if q { 4.0 } else { 40.0 }; x.branch_nl_timeout_ms = Some(if q { 150 } else { 500 }); if q { x.path_cap = 1500; } }
+    for x in u.iter_mut() { x.path_cap = 4000; x.budget_s = if q { 4.0 } else { 12.0 }; x.branch_nl_timeout_ms = Some(if q { 150 } else { 500 }); if q { x.path_cap = 1500; } }
     u.extend(crate::props::c01_static::units(q));
     u
 }
 pub fn meta() -> Meta {
     Meta {
         functions: vec!["every unary wrapper of the crate (32: GTE, LTE, Tanh, Drawdown, LnReturn, WelfordRolling and the 26 sliding-window views; PFE/EFT with an identity moving average) over every inner view (those 32 over Echo, plus Echo and Constant), and Add/Subtract/Multiply/Divide over pairs, composed through Box<dyn View<Sym>>", "192 statically typed chains (nested generic types, no trait object): 12 outer views over 8 composite inner views, 6 outer views over Add/Subtract/Multiply/Divide of 4 child pairs"],
-        bounds: "window length N=2 (quick) / {2,3} (thorough), raised to each view's minimum, plus every wrapper at N=1 over 2 (quick) / 8 (thorough) value-changing inner views; k = warm-up(A)+warm-up(B)+2 capped at 9; quick: 30 (thorough 300) seeded three-level chains incl. the same view three times; every wrapper at least once as outer and once as inner plus 20 VERIF_SEED-selected pairs and 40 seeded combinator pairs; thorough: all 32x34 unary pairs and all 4 x pairs of the simple inner views at N=2, 200 seeded of each at N=3; inputs unconstrained reals (positive for Drawdown/LnReturn); all comparison outcomes up to 4000 paths / the per-unit time budget (reported when hit)",
+        bounds: "window length N=2 (quick) / {2,3} (thorough), raised to each view's minimum, plus every wrapper at N=1 over 2 (quick) / 8 (thorough) value-changing inner views; k = warm-up(A)+warm-up(B)+2 capped at 9; quick: 30 (thorough 300) seeded three-level chains incl. the same view three times; every wrapper at least once as outer and once as inner plus 20 VERIF_SEED-selected pairs and 40 seeded combinator pairs; thorough: all 32x34 unary pairs and 800 seeded combinator pairs at N=2, 200 seeded of each at N=3; inputs unconstrained reals (positive for Drawdown/LnReturn); all comparison outcomes up to 4000 paths / the per-unit time budget (reported when hit)",
         outside: vec!["chains deeper than three", "N > 3", "pairs not selected by the seed in the quick tier"],
         assumptions: vec!["term identity => bit-identical in every float format; equal-in-reals-only outcomes are counted separately (equal_in_reals_only)"],
     }
